@@ -32,6 +32,34 @@ CHECKS = {
         technique='memo state machine in TLA+ (RulePurity.tla) model-checked by TLC; observations of the real rule functions merged from interpreters with different PYTHONHASHSEED and trace-validated (same result per key, arguments unchanged, filter full-or-empty by membership, nb independence, exact unary lookup)',
         text='every key (inventory pairs, seen rules, synthetic pairs in which one feature variable meets different values, unary left-hand sides) is applied twice in each of 4 (quick) / 64 (thorough) fresh interpreters; RulesTrace.tla accepts the merged trace only if one function of the key explains all observations, no call raised or changed its arguments, the seen-rule gate is all-or-nothing by membership of the erased pair in the real seen set, English results ignore nb marks, and unary lookups return exactly the configured targets in order',
         ref='6/C14'),
+    'C01': dict(
+        technique='implementation-shaped TLA+ model of the A* loop (AStar.tla) checked exhaustively by TLC over score matrices and tie schedules against a CKY oracle; pop-hook and result traces of the real parse_sentence validated by ParserTrace.tla',
+        text='AStar.tla (Setup/Pop/Finish, concrete outside estimate) is model-checked for optimality, justified failure, monotone pops and the parent-not-better lemma on all score matrices over small domains (N=3 exhaustive in the thorough tier, all tie schedules for N=2), with a negative control refuting the subtracting estimate; the real search (compiled parsing.h + translated parsing.pyx) is run on random synthetic head-uniform grammars and the real en/ja rules, every popped priority (hook) and every result is judged against the k-best CKY oracle of Oracles.tla',
+        ref='6/C01'),
+    'C02': dict(
+        technique='tree-validity invariant of AStar.tla model-checked by TLC; trees returned by the real depccg.parsing.run evaluated node by node in TLA+ (Oracles!Eval) against the grammar tables observed from the real callbacks',
+        text='TreesValid is an invariant of every AStar.tla configuration (one leaf per token in order, licensed unary/binary nodes, allowed root, no unary at the root, admitted tags); every tree returned by the real parser on synthetic (incl. mixed-head) and real en/ja grammars, with and without seen-rule filtering, is re-evaluated by ParserTrace.tla',
+        ref='6/C02'),
+    'C09': dict(
+        technique='score-accounting invariant of AStar.tla model-checked by TLC; scores of real ScoredTree objects recomputed in TLA+ from the returned tree\'s own head flags',
+        text='the score of every returned tree must equal leaves + dependencies implied by the head flags of the projected real tree + root attachment - penalty per unary node (exact dyadic arithmetic); the placeholder must carry -inf',
+        ref='6/C09'),
+    'C10': dict(
+        technique='k-best invariants of AStar.tla (k>1 configurations) model-checked by TLC against the k-best CKY oracle; n-best lists of the real parser trace-validated (count, distinct, sorted, k largest scores)',
+        text='KBest oracle (dense CKY with unary closure, multiplicities) in TLA+ gives the k largest scores over all derivations; real n-best lists for k in {2,3,4,5,8,50} on head-uniform grammars must be pairwise different, best first, and have exactly those scores',
+        ref='6/C10'),
+    'C11': dict(
+        technique='TLA+ model of chunking / per-worker category table and rule cache / collection (Batch.tla) checked by TLC for all batch permutations; TLC-generated schedules replayed through the real depccg.parsing.run incl. multiprocessing.Pool and validated against solo results',
+        text='Batch.tla proves alignment, own-failure-only, append-only tables, injective ids and cache coherence for every permutation of every subset of a 4-sentence batch x 1..3 processes x chunk sizes; sampled schedules and random larger batches are run on real documents (synthetic, en, ja grammars; too-long, unparseable and budget-limited sentences) and BatchTrace.tla accepts a run only if every result equals the sentence\'s solo result; shape mismatches must raise with zero rule callbacks',
+        ref='6/C11'),
+    'C16': dict(
+        technique='beam admission in AStar.tla (Setup) model-checked by TLC; leaf tags and failure status of the real parser judged by three-valued beam predicates in TLA+',
+        text='CertExcluded / CertAdmitted (three-valued at pruning ties, half-integer beta thresholds) decide for every leaf of every returned tree whether its tag was excluded, and whether a result exists only through excluded tags; adversarial rows (scores clustered around the threshold, boundary ties, flattened entries), pruning sizes 1..3, beta on/off',
+        ref='6/C16'),
+    'C17': dict(
+        technique='one-action TLA+ model of the dictionary filter (CatDict.tla) with all small documents x dictionaries enumerated by TLC and replayed into the real apply_category_filters; shipped strings and dictionary judged by the category-reader spec',
+        text='TLC enumerates 113k document/dictionary vectors with position-coded scores; the real filter output must equal CatDict!Filtered entry by entry, dependency scores and tokens untouched; every distinct shipped category string must be accepted by CatReaderOps!Read and by the real parser and round-trip, every cat_dict.en category must be in targets.en by value, and the shipped dictionary must be applicable through the real loader',
+        ref='6/C17'),
 }
 NOT_YET = 'check not built yet (build in progress; see DESIGN.md section 12)'
 
